@@ -16,6 +16,8 @@ type TestBed struct {
 	Extra  *service.Service
 	Text   *characteristic.ConfiguredName     // string, pr pw ev
 	Blob   *characteristic.SetupEndpoints     // tlv8, pr pw
+	Remote *characteristic.RemoteKey          // uint8, pw only
+	Volume *characteristic.VolumeSelector     // uint8, pw only
 	Secret *characteristic.Identify           // bool, pw only (on every accessory's info service too)
 	RO     *characteristic.CurrentTemperature // float, pr ev
 	All    []*accessory.Accessory
@@ -34,6 +36,10 @@ func NewTestBed(name string, nSwitches int) *TestBed {
 	tb.Extra.AddCharacteristic(tb.Text.Characteristic)
 	tb.Blob = characteristic.NewSetupEndpoints()
 	tb.Extra.AddCharacteristic(tb.Blob.Characteristic)
+	tb.Remote = characteristic.NewRemoteKey()
+	tb.Extra.AddCharacteristic(tb.Remote.Characteristic)
+	tb.Volume = characteristic.NewVolumeSelector()
+	tb.Extra.AddCharacteristic(tb.Volume.Characteristic)
 	tb.Bulb.AddService(tb.Extra)
 	tb.RO = tb.Thermo.Thermostat.CurrentTemperature
 	tb.Secret = tb.Bulb.Info.Identify
